@@ -265,4 +265,16 @@ theorem ruleExact_gauss2 {K : Type} [Field K] [CharZero K] (r : K) (hr : r * r =
     push_cast
     ring
 
+/-- The genuine 3-point Gauss–Legendre rule (nodes `0, ±√(3/5)`, weights `8/9, 5/9`) over any field
+containing a square root `r` of `3/5`: exact to degree `5 = 2·3 − 1`.  This is the rule
+`Curve.length` / `Surface.area` / `Volume.volume` use in a direction of order 2. -/
+theorem ruleExact_gauss3 {K : Type} [Field K] [CharZero K] (r : K) (hr : r * r = 3 / 5) :
+    RuleExact ![-r, 0, r] ![5/9, 8/9, 5/9] 5 := by
+  intro k hk
+  have h2 : r ^ 2 = 3 / 5 := by rw [pow_two, hr]
+  have h4 : r ^ 4 = 9 / 25 := by
+    have : r ^ 4 = (r ^ 2) ^ 2 := by ring
+    rw [this, h2]; norm_num
+  interval_cases k <;> simp [Fin.sum_univ_three] <;> ring_nf <;> simp only [h2, h4] <;> norm_num
+
 end Splipy
